@@ -530,11 +530,63 @@ func checkArgmin(pl *pool, ms *ssa.Function) {
 					cntPhi = q
 				}
 			}
-			// the candidate: the in-loop edge value that is not the phi itself
-			var cand ssa.Value
+			// the in-loop ways of reaching the header, as leaves (slot value, count value, condition): merge phis inside the
+			// loop body (continue-style code joins "keep" and "update" before the back edge) are expanded edge by edge
+			type leaf struct {
+				slot, cnt ssa.Value
+				via       *ssa.BasicBlock
+				edge      func(cs *CondSpace) Bits
+			}
+			var leaves []leaf
+			var expand func(slot, cnt ssa.Value, pred, to *ssa.BasicBlock, outer []func(cs *CondSpace) Bits, depth int)
+			expand = func(slot, cnt ssa.Value, pred, to *ssa.BasicBlock, outer []func(cs *CondSpace) Bits, depth int) {
+				here := func(cs *CondSpace) Bits {
+					e := cs.False()
+					for si, sb := range pred.Succs {
+						if sb == to {
+							e = or(e, cs.EdgeCond(pred, si))
+						}
+					}
+					return e
+				}
+				conds := append(append([]func(cs *CondSpace) Bits{}, outer...), here)
+				if q, isPhi := stripConv(slot).(*ssa.Phi); isPhi && q != ph && l.Blocks[q.Block()] && depth < 4 {
+					var qc *ssa.Phi
+					if cq, ok := stripConv(cnt).(*ssa.Phi); ok && cq.Block() == q.Block() {
+						qc = cq
+					}
+					for j, e := range q.Edges {
+						cv := cnt
+						if qc != nil {
+							cv = qc.Edges[j]
+						}
+						expand(e, cv, q.Block().Preds[j], q.Block(), conds, depth+1)
+					}
+					return
+				}
+				leaves = append(leaves, leaf{slot, cnt, pred, func(cs *CondSpace) Bits {
+					r := cs.True()
+					for _, f := range conds {
+						r = and(r, f(cs))
+					}
+					return r
+				}})
+			}
 			for ei, e := range ph.Edges {
-				if l.Blocks[l.Header.Preds[ei]] && e != ssa.Value(ph) {
-					cand = e
+				pred := l.Header.Preds[ei]
+				if !l.Blocks[pred] {
+					continue
+				}
+				var cv ssa.Value
+				if cntPhi != nil {
+					cv = cntPhi.Edges[ei]
+				}
+				expand(e, cv, pred, l.Header, nil, 0)
+			}
+			var cand ssa.Value
+			for _, lf := range leaves {
+				if lf.slot != ssa.Value(ph) {
+					cand = lf.slot
 				}
 			}
 			if cand == nil || !isElem(cand) {
@@ -548,26 +600,18 @@ func checkArgmin(pl *pool, ms *ssa.Function) {
 			isCur := func(v ssa.Value) bool { return cntPhi != nil && stripConv(v) == ssa.Value(cntPhi) }
 			cs := newCondSpace(ms, recOf(ltAtom("less", cntOf, isCur), ltAtom("greater", isCur, cntOf)), "less", "greater")
 			cs.ExclusiveAtoms("less", "greater")
-			for ei, e := range ph.Edges {
-				pred := l.Header.Preds[ei]
-				if !l.Blocks[pred] {
-					continue
-				}
-				edge := cs.False()
-				for si, sb := range pred.Succs {
-					if sb == l.Header {
-						edge = or(edge, cs.EdgeCond(pred, si))
-					}
-				}
-				if e == ssa.Value(ph) {
-					construct := fmt.Sprintf("minStreamsSubConnRef: minimum kept via block %d", pred.Index)
+			for _, lf := range leaves {
+				edge := lf.edge(cs)
+				if lf.slot == ssa.Value(ph) {
+					construct := fmt.Sprintf("minStreamsSubConnRef: minimum kept via block %d", lf.via.Index)
 					imp, wit := cs.Implies(edge, cs.Not(cs.Atom("less")))
-					c.check(imp, "C02.argmin", construct, p.ipos(ph), "the current minimum is kept only when the candidate's count is not smaller", "a candidate with a strictly smaller stream count can be skipped: "+wit)
+					keptCnt := lf.cnt == nil || lf.cnt == ssa.Value(cntPhi)
+					c.check(imp && keptCnt, "C02.argmin", construct, p.ipos(ph), "the current minimum is kept only when the candidate's count is not smaller", "a candidate with a strictly smaller stream count can be skipped: "+wit)
 					continue
 				}
-				construct := fmt.Sprintf("minStreamsSubConnRef: new minimum via block %d", pred.Index)
+				construct := fmt.Sprintf("minStreamsSubConnRef: new minimum via block %d", lf.via.Index)
 				imp, wit := cs.Implies(edge, cs.Not(cs.Atom("greater")))
-				cntOK := cntPhi != nil && cntOf(cntPhi.Edges[ei])
+				cntOK := lf.cnt != nil && cntOf(lf.cnt) && (lf.slot == cand || sameSnapshotElem(lf.slot, cand))
 				c.check(imp && cntOK, "C02.argmin", construct, p.ipos(ph), "candidate replaces the minimum only when its count is not larger than the current minimum count, and the minimum count is updated with it",
 					"the scan can replace the minimum by a busier slot (or does not track the minimum count): "+wit)
 			}
